@@ -418,12 +418,24 @@ def _src_expr(e, p, ivn, flav):
     raise ValueError(t)
 
 
-def _src_block(b, p, ivn, flav, dyn, ind, out, rets):
+def _src_block(b, p, ivn, flav, dyn, ind, out, rets, scope):
     for j, s in enumerate(b, 1):
-        _src_stmt(s, p + [j], ivn, flav, dyn, ind, out, rets, top=(p == []))
+        _src_stmt(s, p + [j], ivn, flav, dyn, ind, out, rets, scope, top=(p == []))
 
 
-def _src_stmt(s, p, ivn, flav, dyn, ind, out, rets, top):
+def _src_scope(b, p, ivn, flav, dyn, ind, out, rets):
+    """the body of one Python function.  autograph restriction: a loop-carried variable that is read by a function DEFINED
+    inside a loop must exist before the outermost loop (else AutoGraphError 'potentially uninitialized'), so a scope that
+    defines functions initialises its loop variables first."""
+    scope = {"vars": [], "defs": False}
+    body = []
+    _src_block(b, p, ivn, flav, dyn, ind, body, rets, scope)
+    if scope["defs"]:
+        out.extend(f"{ind}{v} = 0" for v in scope["vars"])
+    out.extend(body)
+
+
+def _src_stmt(s, p, ivn, flav, dyn, ind, out, rets, scope, top):
     t = s["t"]
     tag = "_".join(map(str, p))
     K = " + k" if dyn else ""
@@ -439,14 +451,11 @@ def _src_stmt(s, p, ivn, flav, dyn, ind, out, rets, top):
         forms = [f"{lo}{K}, {hi}{K}, {st}"] + ([f"{lo}{K}, {hi}{K}"] if st == 1 else []) + ([f"{hi}{K}"] if st == 1 and lo == 0 else [])
         args = forms[(sum(p) + flav) % len(forms)]
         i, a = f"i_{tag}", f"a_{tag}"
+        scope["vars"] += [i, a] if carry else [i]
         if carry:
             out.append(f"{ind}{a} = {CARRY0}")
-        if any(f"'t': '{k}'" in str(s["c"][0]) for k in ("mcond", "adjfn", "ctrlfn")):
-            # autograph restriction: a loop variable read by a function defined inside the loop body must exist before the
-            # loop (otherwise AutoGraphError "potentially uninitialized")
-            out.append(f"{ind}{i} = 0")
         out.append(f"{ind}for {i} in range({args}):")
-        _src_block(s["c"][0], p + [1], ([i, a] if carry else [i]) + ivn, flav, dyn, ind + "    ", out, rets)
+        _src_block(s["c"][0], p + [1], ([i, a] if carry else [i]) + ivn, flav, dyn, ind + "    ", out, rets, scope)
         if carry:
             out.append(f"{ind}    {a} = {a} + {i} + 1")
             if top:
@@ -454,9 +463,10 @@ def _src_stmt(s, p, ivn, flav, dyn, ind, out, rets, top):
     elif t == "while":
         x0, k, d = s["n"]
         v = f"v_{tag}"
+        scope["vars"].append(v)
         out.append(f"{ind}{v} = {x0}{K}")
         out.append(f"{ind}while {v} < {k}{K}:")
-        _src_block(s["c"][0], p + [1], [v] + ivn, flav, dyn, ind + "    ", out, rets)
+        _src_block(s["c"][0], p + [1], [v] + ivn, flav, dyn, ind + "    ", out, rets, scope)
         out.append(f"{ind}    {v} = {v} + {d}")
         if top:
             rets.append(v)
@@ -468,17 +478,18 @@ def _src_stmt(s, p, ivn, flav, dyn, ind, out, rets, top):
             val = {0: "False", 1: "True", 2: f"{i} % 2 == 0", 3: f"{i} > 0"}
         for j, c in enumerate(s["n"]):
             out.append(f"{ind}{'if' if j == 0 else 'elif'} {val[c]}:")
-            _src_block(s["c"][j], p + [j + 1], ivn, flav, dyn, ind + "    ", out, rets)
+            _src_block(s["c"][j], p + [j + 1], ivn, flav, dyn, ind + "    ", out, rets, scope)
         if len(s["c"]) > len(s["n"]):
             out.append(f"{ind}else:")
-            _src_block(s["c"][-1], p + [len(s["c"])], ivn, flav, dyn, ind + "    ", out, rets)
+            _src_block(s["c"][-1], p + [len(s["c"])], ivn, flav, dyn, ind + "    ", out, rets, scope)
     elif t in ("mcond", "adjfn", "ctrlfn"):
         names = []
+        scope["defs"] = True
         for j in range(len(s["c"])):
             fn = f"f_{tag}_{j + 1}"
             names.append(fn)
             out.append(f"{ind}def {fn}():")
-            _src_block(s["c"][j], p + [j + 1], ivn, flav, dyn, ind + "    ", out, rets)
+            _src_scope(s["c"][j], p + [j + 1], ivn, flav, dyn, ind + "    ", out, rets)
         if t == "mcond":
             out.append(f"{ind}m_{tag} = qp.measure(120 + ({H(p)}{_wsum(ivn)}) % 4)")
             out.append(f"{ind}qp.cond(m_{tag}, {', '.join(names)})()")
@@ -493,7 +504,7 @@ def _src_stmt(s, p, ivn, flav, dyn, ind, out, rets, top):
 def source(prog, flav, dyn, name):
     """Python source of the program as a function name(x, y, k) with native for / while / if"""
     out, rets = [f"def {name}(x, y, k):"], []
-    _src_block(prog, [], [], flav, dyn, "    ", out, rets)
+    _src_scope(prog, [], [], flav, dyn, "    ", out, rets)
     out.append("    return (" + "".join(r + ", " for r in rets) + ")")
     return "\n".join(out) + "\n"
 
